@@ -323,7 +323,7 @@ def run(ctx):
     ctx.assume("the number of steps does not depend on the random draws (seed fixed, values unused)")
     K = ctx.pick(60, 400)
     Ksmall = ctx.pick(8, 40)
-    Kslow = ctx.pick(24, 400)     # primaries whose simulate() loops over the steps in python
+    Kslow = ctx.pick(24, 250)     # primaries whose simulate() loops over the steps in python (cost ~ k^2)
     dts = list(DTS) + [ctx.extra_symbol("dt", EXTRA_DTS)]
     ctx.alphabet("dt", [d[0] for d in dts])
     ctx.alphabet("forms", ["k*dt", "k/den", "decimal literal", "(k-1/2)*dt"])
